@@ -88,9 +88,41 @@ def context_spec(its, rc, Ks):
 
 
 # ------------------------------------------------------------------ the main comparison
-def its_cases(ctx, cases, tag):
+def derived_graphs(ctx, its):
+    """Graphs derived from an ITS object that has ALREADY been queried (NetworkX copies carry the
+    graph-level attribute dict along): a permutation of the same id set, a plain copy with one bond's
+    change moved, and the sub-graph copy without one centre-free atom.  Nothing that was computed
+    for the original may leak into the answers for these."""
+    out = []
+    ns = list(its.nodes)
+    if len(ns) >= 2:
+        perm = ns[:]
+        ctx.rnd.shuffle(perm)
+        out.append((nx.relabel_nodes(its, dict(zip(ns, perm)), copy=True), "perm-same-ids"))
+        shift = ns[1:] + ns[:1]
+        out.append((nx.relabel_nodes(its, dict(zip(ns, shift)), copy=True), "cyclic-shift"))
+    es = [(u, v) for u, v, d in its.edges(data=True) if isinstance(d.get("order"), tuple) and len(d["order"]) == 2]
+    if es:
+        J = its.copy()
+        u, v = ctx.rnd.choice(es)
+        a, b = J[u][v]["order"]
+        try:
+            if a == b:
+                J[u][v]["order"] = (a, b + 1.0)
+                J[u][v]["standard_order"] = a - (b + 1.0)
+            else:
+                J[u][v]["order"] = (a, a)
+                J[u][v]["standard_order"] = 0.0
+            out.append((J, "copy-one-bond-edited"))
+        except TypeError:
+            pass
+    return out
+
+
+def its_cases(ctx, cases, tag, derive=True):
     """cases: list of (its: nx.Graph, meta)."""
     reqs, keep = [], []
+    derived = []
     for its, meta in cases:
         I0 = enc(its)
         try:
@@ -100,6 +132,9 @@ def its_cases(ctx, cases, tag):
         except Exception as e:
             ctx.violation("get_rc / extract_k raises on an ITS graph", {"stream": tag, "its": I0, "meta": meta}, {"error": repr(e)[:300]})
             continue
+        if derive and ctx.rnd.random() < 0.3:
+            for J, how in derived_graphs(ctx, its):
+                derived.append((J, {"derived_from_queried_object": how, "parent_meta": meta}))
         if enc(its) != I0:
             ctx.violation("get_rc / extract_k mutated the ITS", {"stream": tag, "its": I0, "meta": meta})
         R0 = enc(rc)
@@ -154,6 +189,12 @@ def its_cases(ctx, cases, tag):
             ctx.violation("get_rc applied to a centre differs from the model", case, {"diff": first_diff(c2, canon(m_rc2, RC_KEYS, RC_EDGE_KEYS))}, no_input=True)
         if len(ctx.violations) >= 6:
             return
+    _derived_tail(ctx, derived, tag)
+
+
+def _derived_tail(ctx, derived, tag):
+    if derived and len(ctx.violations) < 6:
+        its_cases(ctx, derived, tag + ":derived", derive=False)
 
 
 def labels_ok(its, K):
